@@ -346,6 +346,7 @@ class KeyChecker:
         self.R_atom = ck.rule(prefix + '.KEY-atom', 'component comparisons are verified three-way comparisons '
                               '(E1 over the orderings <,=,>; sequence tail over the exhaustion cases)')
         self.atom_cache = {}
+        self.string_identity = []
         self.tables_seen = {}
         self.fn_cover = {}
 
@@ -469,6 +470,15 @@ class KeyChecker:
             covered |= (pa & pb)
             # does the component determine the parameter (identity, whole content) or only a projection of it?
             nbq = self.norm(b, st_any)
+            # a spelling handed in as a String is compared by content: Strings of another pool (another Lexicon, a
+            # free-standing String) with the same characters denote the same spelling
+            tb = nbq
+            while isinstance(tb, tuple) and tb and tb[0] in ('castto',):
+                tb = tb[2]
+            if isinstance(tb, tuple) and tb[0] == 'addr' and isinstance(tb[1], tuple) and tb[1][0] == 'param' and tb[1][1] >= Q:
+                pi = tb[1][1] - Q
+                if pi < len(f['params']) and f['params'][pi]['t'].replace('const ', '').replace('&', '').strip() == 'ipr::String':
+                    self.string_identity.append((inst, f, pi, ra, rb, loc, cmp_fid))
             for p in (pa & pb):
                 if determines(nbq, p + Q):
                     full.add(p)
@@ -514,6 +524,14 @@ class KeyChecker:
                     fixed[a] = b
                 if not params_in(a):
                     fixed[b] = a
+            # content equality of a word with a constant word: std::operator==(string_view, string_view)
+            if c[0] == 'call' and val and len(c) >= 4 and c[2] is None and len(c[3]) == 2 and c[1].startswith('std::operator==') \
+                    and 'basic_string_view' in c[1]:
+                a, b = c[3]
+                if not params_in(b):
+                    fixed[a] = b
+                if not params_in(a):
+                    fixed[b] = a
         for c, val in conds:
             visit(c, val)
         return fixed
@@ -529,6 +547,14 @@ class KeyChecker:
             return True
         # the empty spelling: strings are unified by content (C03) and there is one character sequence of
         # length 0, so `size() == 0` on the parameter's characters fixes a String / word parameter
+        for t in fixed:
+            # the String interned for the parameter is identified with a constant String: one content (C03)
+            x = t
+            while isinstance(x, tuple) and x and x[0] in ('addr', 'castto'):
+                x = x[1] if x[0] == 'addr' else x[2]
+            if isinstance(x, tuple) and x and x[0] in ('call', 'vcall') and contracts.fn_simple(x[1]) in ('intern', 'get_string') \
+                    and len(x[3]) == 1 and x[3][0] == pq:
+                return True
         for t in fixed:
             x, through = t, []
             while isinstance(x, tuple) and x and x[0] in ('call', 'vcall') and x != pq:
@@ -604,6 +630,14 @@ class KeyChecker:
                 continue
             ops = [e for e in st.effects if e[0] in ('tree_insert', 'chain_insert')]
             if not ops:
+                # a path that answers with one process-wide constant: every parameter must be fixed by the path condition
+                # (the constant stands for exactly one request)
+                v = _v
+                while isinstance(v, tuple) and v and v[0] in ('addr', 'deref', 'castto'):
+                    v = v[2] if v[0] == 'castto' else v[1]
+                if isinstance(v, tuple) and v and v[0] == 'global':
+                    missing = [i for i in range(n) if not self.determined(f, i, st.conds)]
+                    seen.setdefault('the constant ' + contracts.short(str(v[1])), []).extend(missing)
                 continue
             used = set()
             for e in ops:
@@ -616,7 +650,7 @@ class KeyChecker:
             inst = contracts.short(contracts.fn_qname(f['id'])) + sig + ' -> ' + tabs
             missing = sorted(set(missing))
             ck.check(self.R_guard, inst, not missing,
-                     f'on a path of {f["id"]} that yields an element of {tabs}, parameter(s) '
+                     f'on a path of {f["id"]} that yields {"" if tabs.startswith("the constant") else "an element of "}{tabs}, parameter(s) '
                      f'{[f["params"][i]["name"] or i for i in missing]} occur in no key of that path and the path '
                      f'condition does not fix them to one value: requests differing only there share a node',
                      loc=f['loc'], fn=f['id'])
